@@ -2,6 +2,7 @@
 From Coq Require Import String ZArith List Bool Reals.
 From XV Require Import Base.Scalar Base.Sum Base.Mat Base.RInst Model.Eof Model.Cpcca Gen.T5cpcca
   Proofs.C01_proofs Proofs.C08_proofs Proofs.C09_proofs Proofs.C09_real Proofs.C09_tie.
+From XV Require Gen.T7chain Proofs.Chain_tie.
 Import ListNotations.
 
 (* S1^H S2 / (n-1) = diag(sigma_k): the two score sets have a diagonal cross-covariance whose diagonal is
@@ -71,3 +72,11 @@ Theorem C09_model_matches_source :
   cpcca_inverse_conj_components = true /\ cpcca_sample_count_checked = true.
 Proof. exact tie_cpcca_core. Qed.
 Print Assumptions C09_model_matches_source.
+
+(* order of the stages of a cross-set fit as it stands in the source: augmentation (analytic signal of the Hilbert variants) before the
+   whitening, so that the whitening degree acts on the covariance of the signal that is decomposed *)
+Theorem C09_whitening_follows_the_augmentation :
+  map (fun c => snd (fst (fst c))) T7chain.cross_fit_calls =
+  ["preprocessor1"; "preprocessor2"; "pca1"; "pca2"; "_augment_data"; "whitener1"; "whitener2"; "_fit_algorithm"]%string.
+Proof. exact Chain_tie.cross_fit_stage_order. Qed.
+Print Assumptions C09_whitening_follows_the_augmentation.
